@@ -14,7 +14,7 @@ CONSTANTS
   MintTo = {"", "u3"}
   TransferTo = {"u3"}
   MaxTokens = 2
-  InitStake = 9
+  InitStake = 7
   BaseFee = 5
   TaxNum = 2
   TaxDen = 5
